@@ -183,7 +183,8 @@ def prefix_arithmetic_layering(rep: Report, prog: Program, resolver: Resolver) -
         for node in ast.walk(fi.node):
             numeric_call = isinstance(node, ast.Call) and (
                 (isinstance(node.func, ast.Attribute) and node.func.attr in ("scaleb", "ldexp", "shift", "__pow__", "pow"))
-                or ast.unparse(node.func) in ("pow", "math.pow", "math.ldexp", "_pow", "math.log", "round"))
+                or ast.unparse(node.func) in ("pow", "math.pow", "math.ldexp", "_pow", "math.log", "round", "_add", "_sub", "_mul", "_div",
+                                              "operator.add", "operator.sub", "operator.mul", "operator.truediv", "operator.pow"))
             if not isinstance(node, (ast.BinOp, ast.AugAssign)) and not numeric_call:
                 continue
             for sub in (ast.walk(node) if not numeric_call else [x for a in list(node.args) + [k.value for k in node.keywords] for x in ast.walk(a)]):
@@ -217,6 +218,62 @@ def named_prefixes(rep: Report) -> None:
     rep.analysed["named_prefixes"] = len(seen)
 
 
+def text_means_unit(rep: Report, prog: Program, rid: str = "R11.6") -> None:
+    """R11.6: the pieces every renderer prints - a leading magnitude and one (prefix, symbol, exponent) term per factor -
+    denote the unit: ln m + sum e_i ln p_i = ln P (sa/termwalk.py), and each caller folds the magnitude in by
+    multiplication (or prints it in front)."""
+    from ..termwalk import TermWalk, judge
+    fi = prog.func("formatting._unit_to_magnitude_and_terms")
+    try:
+        w = TermWalk(fi.node)  # type: ignore[arg-type]
+        rets = w.run()
+    except AnalysisError as e:
+        rep.defer(e)
+        rep.rules[rid].floor = 0
+        rets = []
+        w = None  # type: ignore[assignment]
+    for pth, v, st in rets:
+        ok, why = judge(w, v)
+        arm = " & ".join(pth.conds) or "-"
+        rep.check(rid, f"_unit_to_magnitude_and_terms|{arm}", ok,
+                  f"on the path [{arm}] the printed pieces do not denote the unit: {why} (a prefix not raised / rooted by the exponent of the "
+                  "factor it is pushed onto, or applied twice: Mega * Meter**-2 must print as (mm)^-2, i.e. the prefix's -2nd root)",
+                  fi.where(st))
+    # callers
+    mi = prog.module("formatting")
+    for q, cfi in sorted(prog.functions.items()):
+        if cfi.module != "formatting" or q == fi.qual:
+            continue
+        for n in ast.walk(cfi.node):
+            if not (isinstance(n, ast.Assign) and isinstance(n.value, ast.Call) and ast.unparse(n.value.func) == "_unit_to_magnitude_and_terms"
+                    and len(n.targets) == 1 and isinstance(n.targets[0], ast.Tuple) and len(n.targets[0].elts) == 2
+                    and isinstance(n.targets[0].elts[0], ast.Name)):
+                continue
+            m = n.targets[0].elts[0].id
+            uses = [x for x in ast.walk(cfi.node) if isinstance(x, ast.Name) and x.id == m and isinstance(x.ctx, ast.Load)]
+            bad = None
+            folded = False
+            for u in uses:
+                par = getattr(u, "_parent", None)
+                if isinstance(par, ast.BinOp):
+                    if isinstance(par.op, ast.Mult):
+                        folded = True
+                    elif not (isinstance(par.op, ast.Add) and isinstance(getattr(par, "_parent", None), (ast.IfExp, ast.BinOp, ast.JoinedStr))):
+                        bad = par
+                elif isinstance(par, ast.AugAssign):
+                    folded = folded or isinstance(par.op, ast.Mult)
+                    if not isinstance(par.op, ast.Mult):
+                        bad = par
+                elif isinstance(par, ast.Call):
+                    folded = True      # printed (str / format) or handed to the shared renderer
+                elif isinstance(par, ast.FormattedValue):
+                    folded = True
+            rep.check(rid, f"{q}:magnitude", folded and bad is None,
+                      f"{q} " + (f"combines the unit's leading magnitude by `{ast.unparse(bad)[:50]}`" if bad is not None else
+                                 "drops the unit's leading magnitude") + ": the text no longer means magnitude x unit "
+                      "(5 km^2 printed without, or divided by, its 1000)", cfi.where(bad if bad is not None else n))
+
+
 def run(rep: Report) -> None:
     prog = Program()
     resolver = Resolver(prog)
@@ -226,6 +283,8 @@ def run(rep: Report) -> None:
     rep.rule("R11.3", "Unit.quantify, Quantity.unprefixed and number*prefix preserve the physical value and leave the identity prefix", floor=3)
     rep.rule("R11.4", "convert() starts from the unprefixed magnitude and the plan divides by the target prefix exactly once", floor=2)
     rep.rule("R11.7", "prefix factors are computed only inside class Prefix (no arithmetic on .base/.exponent elsewhere)")
+    rep.rule("R11.6", "the text form means the unit: leading magnitude x prod (prefix_i symbol_i)^e_i is worth prefix x factors on every path of "
+             "formatting._unit_to_magnitude_and_terms, and every renderer folds the magnitude in by multiplication", floor=6)
     rep.rule("R11.5", "declared prefixes: integer base >= 2, integer exponent, one name per factor", floor=25)
     ops = dict(UNIT_OPS)
     check_group_ops(rep, "R11.1", prog, resolver, ops, "unit", ("dimension", "prefix", "unit"), component="p")
@@ -257,6 +316,7 @@ def run(rep: Report) -> None:
              "convert() strips the prefix from the magnitude and plans on factors, so a prefixed key applies a prefix twice", floor=6)
     check_equate(rep, prog, resolver)
     value_preservation(rep, prog, resolver)
+    text_means_unit(rep, prog)
     plan_prefix_step(rep, prog)
     prefix_arithmetic_layering(rep, prog, resolver)
     named_prefixes(rep)
